@@ -263,6 +263,8 @@ def bfs(model, depth):
 PATTERNS = ['p', 'p.a > b', '*', '#i', '[t=v]', '[t="v" i]', 'a, b', ':not(a, b)', ':is(a > b)', ':has(> a)', ':nth-child(2n+1)', ':nth-child(2 of a)', ':nth-last-child(2)', ':nth-of-type(2)', ':nth-last-of-type(-n+3)', ':only-child', ':last-of-type', ':-soup-contains-own("y")', ':has(+ a, > b)', '[t|=v s]',
             ':lang(en)', ':dir(ltr)', ':-soup-contains("x")', ':root', 'x|a', '[x|t]', ':checked', ':in-range', 'a b', 'a  b', 'A', ':hover', ':is()',
             # different texts that the parser reads alike (preprocessing, escapes, padding, comments): the objects differ because their patterns differ
+            # integers whose hashes collide in CPython (hash(-1) == hash(-2)): equality must not be decided by the hash
+            ':nth-child(-n+3)', ':nth-child(-2n+3)', ':nth-last-of-type(-n-1)', ':nth-last-of-type(-n-2)',
             'a\x00', 'a\ufffd', '\\61 ', ' a', 'a ', 'a/**/', '[t=\'v\']', '[t=v ]']
 NSS = [None, {}, {'x': 'u'}, {'x': 'u', 'y': 'v'}, {'y': 'v', 'x': 'u'}, {'x': 'U'}]
 CUSTOMS = [None, {}, {':--c': 'a'}, {':--c': 'a', ':--d': 'b'}, {':--d': 'b', ':--c': 'a'}]
@@ -487,6 +489,12 @@ def run_values(sv, tier, i, n, res):
             cb, kb = objs[b], ckey(ts[b])
             res.evaluations += 1
             eq = ca == cb
+            # the same law one level down, on the selector structures themselves (== and != are separate methods there)
+            peq, pne = ca.selectors == cb.selectors, ca.selectors != cb.selectors
+            if peq == pne or (peq and hash(ca.selectors) != hash(cb.selectors)):
+                res.fail({'layer': 'pair', 'a': list(map(repr, ts[a])), 'b': list(map(repr, ts[b])), 'ia': a, 'ib': b, 'tier': tier},
+                         {'kind': 'eq-and-ne-disagree-on-structure' if peq == pne else 'equal-but-different-hash'},
+                         f'selector structures of compile{ts[a]!r} and compile{ts[b]!r}: == gives {peq}, != gives {pne}')
             if eq != (ka == kb) or (ca != cb) == eq:
                 res.fail({'layer': 'pair', 'a': list(map(repr, ts[a])), 'b': list(map(repr, ts[b])), 'ia': a, 'ib': b, 'tier': tier},
                          {'kind': 'equality-vs-arguments', 'differ_in': '+'.join(n_ for n_, x, y in zip(('pattern', 'namespaces', 'custom', 'flags'), ka, kb) if x != y) or 'nothing'},
